@@ -105,6 +105,10 @@ FOut(op, f, pr, x) ==
     [] op = "unnorm_pub" -> E(AddM(AddM(x[1], x[2], m), x[2], m))
     [] op = "unnorm_eq" -> <<One, BoolN(x[1] = Zero)>>
     [] op = "unnorm_iszero" -> <<BoolN(x[1] = x[2])>>
+    \* is_equal / is_not_equal of a well-formed w with the un-normalised x - y, then w - (x - y) = 0 ?
+    [] op = "unnorm_subeq" -> LET d == SubM(x[2], x[3], m) IN <<BoolN(x[1] = d), BoolN(x[1] # d), BoolN(x[1] = d)>>
+    \* x - (x - y) = y;  y - (x - y) = 2y - x
+    [] op = "unnorm_subsub" -> <<One, BoolN(SubM(AddM(x[2], x[2], m), x[1], m) = Zero)>> \o E(x[2])
     [] op = "unnorm_mul" -> E(MulM(AddM(x[1], x[2], m), SubM(x[1], x[2], m), m))
     [] op = "unnorm_bits" -> BitsN(AddM(x[1], x[1], m), NBitsOf(f))
     [] op = "to_le_bits" -> BitsN(x[1], ToBitsCount(f, ToInt(pr[1])))
